@@ -268,6 +268,45 @@ def rule_export(ctx, repo):
         raise AnalysisError("exporter reads of cache.df_in: %d found, 3 confirmed by reading" % sites)
 
 
+def rule_borrowed(ctx, repo):
+    """A parameter borrowed through ExtParam from a per-unit-flagged source must carry the source's SYSTEM-base value ("values read
+    through a model and through its group are the same number").  ExtParams are linked before the conversion (the bases themselves may
+    be borrowed), so for every flagged source System.setup must link again AFTER calc_pu_coeff."""
+    from engine import elab
+    models = elab.load_models()
+    flags = ("power", "ipower", "voltage", "current", "z", "y", "dc_voltage", "dc_current", "r", "g")
+    groups = {}
+    for n, m in models.items():
+        groups.setdefault(m.group, []).append(m)
+    flagged = []
+    for n, m in models.items():
+        for pn, p in m.params_ext.items():
+            cands = [models[p.model]] if p.model in models else groups.get(p.model, [])
+            fl = set()
+            for c in cands:
+                sp_ = c.params.get(p.src)
+                if sp_ is not None and hasattr(sp_, "property"):
+                    fl |= {k for k in flags if sp_.property.get(k)}
+            if fl:
+                flagged.append((n, pn, p.model, p.src, sorted(fl), m, pn))
+    ctx.count("extparams_with_flagged_source", len(flagged))
+    su = F.method(repo, "System", "setup", SYSTEM)
+    conv = su.calls("self.calc_pu_coeff")
+    links = su.calls("self.link_ext_param")
+    after = [l for l in links if conv and su.g.reachable(conv[0], l)]
+    # the refreshing link may only depend on the outcome of the first link (`ret`)
+    clean = []
+    for l in after:
+        st = su.g.data(l)["ast"]
+        chain = Q.condition_chain(su.fn, st) or []
+        if all(hasattr(c, "test") and src(c.test).replace(" ", "") in ("retisTrue", "ret") for c in chain):
+            clean.append(l)
+    for n, pn, sm, sp_name, fl, m, _ in flagged:
+        ctx.check(bool(clean), "C11.coeff", "%s.%s<-%s.%s" % (n, pn, sm, sp_name), "borrowed after the source's conversion (%s)" % ",".join(fl),
+                  "%s.%s borrows %s.%s, a per-unit quantity (%s), but is linked only BEFORE calc_pu_coeff and never refreshed: it keeps the device-base "
+                  "input value while the source holds the system-base value" % (n, pn, sm, sp_name, ",".join(fl)), elab.locate(m, pn))
+
+
 def rule_reset(ctx, repo):
     r = F.method(repo, "System", "reset", SYSTEM)
     a = r.calls("self._p_restore")
@@ -317,7 +356,7 @@ def rule_reset(ctx, repo):
 
 
 def run(ctx):
-    ctx.rule("C11.coeff", "coefficient table == textbook base ratios (normal form), key set == NumParam flags, all applied, base selection", 13)
+    ctx.rule("C11.coeff", "coefficient table == textbook base ratios (normal form), key set == NumParam flags, all applied, base selection; borrowed per-unit parameters refreshed after conversion", 14)
     ctx.rule("C11.invariant", "v == vin*k after to_array / set_pu_coeff / restore / both branches of Model.alter; Group.alter delegates", 6)
     ctx.rule("C11.tconst", "time-constant alteration reaches dae.Tf and TDS.Teye for every governed state, unconditionally", 5)
     ctx.rule("C11.export", "export reads the input-base view and refreshes the cached view first (dominance)", 5)
@@ -326,6 +365,7 @@ def run(ctx):
     repo = Repo()
     rule_coeffs(ctx, repo)
     rule_invariant(ctx, repo)
+    rule_borrowed(ctx, repo)
     rule_tconst(ctx, repo)
     rule_export(ctx, repo)
     rule_reset(ctx, repo)
